@@ -18,6 +18,7 @@ go build ./... >> $log 2>&1; echo "rc=$?" >> $log
 echo "== demo WITH change" >> $log
 go test $extra -vet=off -count=1 -run "$re" ./$pkg/ 2>&1 | grep -E "^\s*--- FAIL|^FAIL|^ok|^panic" | head -12 >> $log; 
 rm -f $wt/$pkg/seed_c*_test.go $wt/$pkg/*c[0-9][0-9]*demo*_test.go $wt/$pkg/*_demo_test.go $wt/$pkg/*_demo_unix_test.go $wt/$pkg/*_verif_test.go $wt/$pkg/c01b_*_test.go
+for f in $out/demo/*_test.go; do rm -f $wt/$pkg/$(basename $f); done
 echo "== suite WITH change (failures only)" >> $log
 go test -vet=off -count=1 -timeout 25m ./... 2>&1 | grep -E "^(FAIL|---|ok|panic)" | grep -v "^ok" >> $log
 echo "== done" >> $log
